@@ -16,7 +16,7 @@ RULE = ("bounded-exhaustive bracket sequences: every sequence of N leaves from {
 ASSUMPTIONS = ["programs whose only issue is gates after a trailing unmatched prepare_all are not judged (statement ambiguous)",
                "termination of accepted programs is C08's clause: a step-budget overrun here is inconclusive for C12"]
 TIERS = {"quick": {"shards": 8, "budget_s": 120}, "thorough": {"shards": 16, "budget_s": 480}}
-REQUIRE = {"circuits-grown-between-runs": 500, "two-level-macro-programs:G": 200, "two-level-macro-programs:S": 100, "bracket-programs-through-CircuitBuilder": 150, "built-through-CircuitBuilder": 300, "idle-gate-variants": 2000, "loop-count-overridden-programs": 1000, "object-assembled-programs": 2000, "ref-accept": 500, "ref-reject:measure-without-prepare": 100, "ref-reject:gate-outside-subcircuit": 100,
+REQUIRE = {"macro-whose-body-is-a-subcircuit-block": 300, "circuits-grown-between-runs": 500, "two-level-macro-programs:G": 200, "two-level-macro-programs:S": 100, "bracket-programs-through-CircuitBuilder": 150, "built-through-CircuitBuilder": 300, "idle-gate-variants": 2000, "loop-count-overridden-programs": 1000, "object-assembled-programs": 2000, "ref-accept": 500, "ref-reject:measure-without-prepare": 100, "ref-reject:gate-outside-subcircuit": 100,
            "ref-reject:measure-in-loop-closes-earlier-prepare": 50, "states-compared": 500}
 
 
@@ -25,7 +25,7 @@ def judge(case):
     ov = dict(case.get("ov") or {})
     asm = case.get("assemble")
     st, s = X.setup(prog, ov or None, assemble=("builder", case.get("bseed", 0)) if asm == "builder" else bool(asm))
-    if st.startswith("skipped:input-rejected:JaqalError") and not asm and refused_when_built(prog, ov):
+    if st.startswith("skipped:input-rejected:JaqalError") and not asm and X.refused_when_built(prog, ov):
         # a well-bracketed, legally nested program over the gate set, refused before it could run
         return "ok", [("rejects-acceptable-program:when-built", {"error": str(s.parse_outcome[2])[:200]})], {"ref": "accept"}
     if st != "ok":
@@ -125,62 +125,6 @@ def macroify_subcircuits(prog):
     return out[:k + 1] + (("macro", "mx1", "a", ("sequential_block", ("gate", "X", "a"))),) + out[k + 1:]
 
 
-def nesting_through_macros_ok(prog):
-    """No call of a macro that holds a subcircuit block (itself or through the macros it calls) from inside a subcircuit
-    block or a parallel block -- the indirect form of the nesting rule."""
-    holds = {}
-
-    def has_sub(s):
-        if not isinstance(s, tuple):
-            return False
-        if s[0] == "subcircuit_block":
-            return True
-        if s[0] == "gate":
-            return holds.get(s[1], False)
-        return any(has_sub(x) for x in s[1:])
-
-    def ok(s, inside):
-        if not isinstance(s, tuple):
-            return True
-        if s[0] == "gate":
-            return not (inside and holds.get(s[1], False))
-        if s[0] in ("subcircuit_block", "parallel_block"):
-            return all(ok(x, True) for x in s[1:])
-        return all(ok(x, inside) for x in s[1:])
-
-    for s in prog[1:]:
-        if s[0] == "macro":
-            if not ok(s[-1], False):
-                return False
-            holds[s[1]] = has_sub(s[-1])
-        elif s[0] not in sx.HEADER and not ok(s, False):
-            return False
-    return True
-
-
-def refused_when_built(prog, ov):
-    """The parser (or builder) refused the program.  Is it one that ought to run?  Decided on the model alone."""
-    if not sx.legal_nesting(prog) or not nesting_through_macros_ok(prog):
-        return None
-    try:
-        core = M.core_from_sx(prog)
-        M.validate(core, ov or {})
-        tree = M.full_meaning(core, env=ov or {})
-        funds = core.fundamental()
-        if len(funds) != 1:
-            return None
-        n = len(M.Evaluator(core, env=ov or {}, resolve=True).elems(funds[0], {}))
-        P = refexec.Program(tree, n)
-        if P.overlap() is not None or P.repeated_qubit_gate() is not None:
-            return None
-        scan = P.flat_scan()
-        if scan["trailing_gates"]:
-            return None
-    except (M.MeaningError, M.OracleError, refexec.Reject):
-        return None
-    return True
-
-
 def two_level(prog, kind):
     """Two macros that every variant names alike, `out0` calling `in0`: with kind "G" in0 is one gate and the ordinary gates
     inside subcircuit blocks become calls of out0; with kind "S" in0 IS the first subcircuit block (gates only) and out0
@@ -227,6 +171,26 @@ def two_level(prog, kind):
         out = wrap(out)
     macros = (("macro", "in0", ("sequential_block", found[0])), ("macro", "out0", ("sequential_block", ("gate", "in0"))))
     return out[:hdr_end + 1] + macros + out[hdr_end + 1:]
+
+
+def macro_is_subcircuit(prog):
+    """The first subcircuit block that holds only gates becomes the BODY of a macro (not a block inside its body): only the
+    builder API can say that.  A call of the macro stands where the block stood."""
+    hdr_end = max([i for i, x in enumerate(prog) if isinstance(x, tuple) and x[0] in sx.HEADER] + [0])
+    found = []
+
+    def rw(s):
+        if not isinstance(s, tuple):
+            return s
+        if s[0] == "subcircuit_block" and not found and all(isinstance(x, tuple) and x[0] == "gate" for x in s[2:]):
+            found.append(s)
+            return ("gate", "msub0")
+        return tuple(rw(x) for x in s)
+
+    out = rw(prog)
+    if not found:
+        return None
+    return out[:hdr_end + 1] + (("macro", "msub0", found[0]),) + out[hdr_end + 1:]
 
 
 def idle_variant(prog):
@@ -414,6 +378,11 @@ def shard(ctx):
                 if mp is not None:
                     process(ctx, {"prog": mp, "assemble": "builder", "bseed": ctx.rng.randrange(1 << 30)}, seen, minimise_budget=0)
                     rec.count("bracket-programs-through-CircuitBuilder")
+            if j % 4 == 1:
+                ms = macro_is_subcircuit(prog)
+                if ms is not None:
+                    process(ctx, {"prog": ms, "assemble": "builder", "bseed": ctx.rng.randrange(1 << 30)}, seen, minimise_budget=0)
+                    rec.count("macro-whose-body-is-a-subcircuit-block")
             if j % 5 == 2:
                 process(ctx, {"prog": prog, "grow": ctx.rng.randint(1, 3)}, seen, minimise_budget=0)
                 rec.count("circuits-grown-between-runs")
